@@ -174,18 +174,23 @@ class RefDecoder:
                 if any(n not in (1, 2, 3, 4, 5) for n, _ in sc):
                     raise NotConformant("scope type")
                 nrec = len(body) // size
-                if nrec != 1:
-                    raise NotConformant("options data with %d records" % nrec)
+                if nrec < 1:
+                    raise NotConformant("options data without a record")
+                # RFC 3954 6.2: an options data flowset holds one or more options data records
                 q = 0
-                scv = []
-                for n, l in sc:
-                    scv.append((n, body[q : q + l]))
-                    q += l
-                opv = []
-                for n, l in op:
-                    opv.append((n, body[q : q + l]))
-                    q += l
-                out.append(("OD", fid, ln, scv, opv, body[q:]))
+                recs = []
+                for _ in range(nrec):
+                    scv = []
+                    for n, l in sc:
+                        scv.append((n, body[q : q + l]))
+                        q += l
+                    opv = []
+                    for n, l in op:
+                        opv.append((n, body[q : q + l]))
+                        q += l
+                    recs.append((scv, opv))
+                # (kind, id, length, scope of record 0, options of record 0, padding, all records)
+                out.append(("OD", fid, ln, recs[0][0], recs[0][1], body[q:], recs))
             else:
                 raise NotConformant("data without template")
             pos += ln
